@@ -13,6 +13,8 @@ PRESETS_QUICK = [
     ("USA", dict(scenario="no_resilient_foods", shutoff="continued", meat_strategy="baseline_breeding", NMONTHS=48)),
     ("JPN", dict(scenario="seaweed", stored_food="zero", cull="dont_eat_culled", intake_constraints="disabled_for_humans")),
     ("IND", dict(scenario="industrial_foods", ratio_stocks_untouched="no_stored_between_years", shutoff="continued", stored_food="zero")),
+    # a food-surplus country that keeps feeding animals while the factories come on line: resilient foods reach feed and biofuel in the final round
+    ("ARG", dict(shutoff="continued", NMONTHS=48)),
     # the world aggregate (scale=global; pipeline.options switches the *_globally option values in)
     ("WOR", dict(scale="global", NMONTHS=72)),
 ]
